@@ -66,6 +66,8 @@ def build(src, config, extra_flags=(), tag=None, deps=(), libs=()):
     cfg = cfgs[config]
     cxx = cfg.get('cxx', 'g++')
     flags = BASE_FLAGS + list(extra_flags) + cfg.get('flags', [])   # configuration flags last: they override per-driver defaults such as -O1
+    if '-O0' in flags:      # at -O0 g++ folds no libm call anyway, and g++ 12 miscompiles long-double literal conversions under -O0 -frounding-math (seen in c19's reference weights)
+        flags = [f for f in flags if f != '-frounding-math']
     srcp = os.path.join(VERIF, src)
     eng = sorted(glob.glob(os.path.join(VERIF, 'engine', '*.hpp'))) + [os.path.join(VERIF, d) for d in deps]
     key = hashlib.sha256((tree_hash() + file_hash([srcp] + eng) + cxx + ' '.join(flags) + REPO).encode()).hexdigest()[:16]
